@@ -110,6 +110,17 @@ func cmdCheck(args []string) {
 	for _, l := range baseline[prop] {
 		inBase[l] = true
 	}
+	// obligations of the discharged baseline that came back without an answer are retried with little
+	// parallelism and a doubled budget before they are reported: a loaded machine must not raise an alarm
+	var retry []*Obligation
+	for _, o := range obls {
+		if !o.MustFail && o.Res.Status != "unsat" && o.Res.Status != "sat" && inBase[o.Fn+"::"+o.Label] {
+			retry = append(retry, o)
+		}
+	}
+	if len(retry) > 0 {
+		P.discharge(retry, 2*secs, false, 3)
+	}
 	undecidedFns := map[string][]string{}
 	for _, fr := range frs {
 		if len(fr.Errs) > 0 {
